@@ -588,7 +588,8 @@ impl Writer {
             self.last_fileid,
         ))?)?;
         self.active_fileid = self.last_fileid;
-        self.writer = writer;
+        // Bytes that a failed append left buffered must never reach the file we are leaving
+        std::mem::replace(&mut self.writer, writer).discard();
         self.written_bytes = 0;
         self.stale = false;
         Ok(())
